@@ -34,31 +34,39 @@ def enchStr (e : Ench) : String := s!"{e.cls}.{e.subj}.{e.det}"
 /-! ### IDNA table -/
 
 structure Tab where
-  a : List (S × Option S)
-  d : List (S × Option S)
+  pa : List (S × Option S)      -- idna.ToASCII(domain)
+  pu : List (S × Option S)      -- norm.NFC.String(idna.ToUnicode(domain))
+  d : List (S × Option S)       -- dns.SelectIDNA(utf8, domain) in the flavour of the case
 
+/-- `pa:<dom>:<out|!>`, `pu:<dom>:<out|!>` — the library calls under `address.SelectIDNA` for the
+DOMAINS of the addresses of the case (the address conversion itself is the model's `selectIDNA`);
+`d:<dom>:<out|!>` — `dns.SelectIDNA`. -/
 def parseTab (s : String) : Option Tab :=
-  if s == "-" then some ⟨[], []⟩ else
+  if s == "-" then some ⟨[], [], []⟩ else
   (s.splitOn ",").foldlM (fun (t : Tab) e =>
     match e.splitOn ":" with
     | [k, i, o] => do
       let i ← unhexRunes? i
       let o ← if o == "!" then pure none else some <$> unhexRunes? o
-      if k == "a" then pure { t with a := t.a ++ [(i, o)] }
+      if k == "pa" then pure { t with pa := t.pa ++ [(i, o)] }
+      else if k == "pu" then pure { t with pu := t.pu ++ [(i, o)] }
       else if k == "d" then pure { t with d := t.d ++ [(i, o)] }
       else none
-    | _ => none) ⟨[], []⟩
+    | _ => none) ⟨[], [], []⟩
 
 def lookup (l : List (S × Option S)) (x : S) : Option (Option S) :=
   (l.find? (fun p => p.1 == x)).map (·.2)
 
 def Tab.idna (t : Tab) : Idna :=
-  { addr := fun _ x => (lookup t.a x).getD none,
-    dom := fun _ x => (lookup t.d x).getD none }
+  Idna.ofConv ⟨fun x => (lookup t.pa x).getD none, fun x => (lookup t.pu x).getD none⟩
+    (fun _ x => (lookup t.d x).getD none)
 
-/-- every non-empty string that may be converted has an entry (no defaults) -/
-def Tab.covers (t : Tab) (addrs doms : List S) : Bool :=
-  addrs.all (fun x => x.isEmpty || (lookup t.a x).isSome) &&
+/-- every string the library may be asked to convert has an entry (no defaults): the domain of
+every address that `address.Split` accepts, in the flavour of the case -/
+def Tab.covers (t : Tab) (utf8 : Bool) (addrs doms : List S) : Bool :=
+  addrs.all (fun x => match MaddyVerif.Dsn.splitAddr x with
+    | some (_, dom) => dom.isEmpty || (lookup (if utf8 then t.pu else t.pa) dom).isSome
+    | none => true) &&
   doms.all (fun x => x.isEmpty || (lookup t.d x).isSome)
 
 /-! ### rendering -/
@@ -133,7 +141,7 @@ def handleGen : List String → Option String
       let mta : MtaInfo := { reportingMTA := ← unhexRunes? rm, receivedFromMTA := ← unhexRunes? rcvd,
                              xSender := ← unhexRunes? xs, xMsgId := ← unhexRunes? xid, hasArrival := arr == "1" }
       let env : Envelope := { msgId := ← unhexRunes? msgId, from_ := ← unhexRunes? from_, to := ← unhexRunes? to }
-      if !t.covers (mta.xSender :: rs.map (·.finalRcpt)) (mta.reportingMTA :: mta.receivedFromMTA :: rs.map (·.remoteMTA)) then none else
+      if !t.covers (utf8 == "1") (mta.xSender :: rs.map (·.finalRcpt)) (mta.reportingMTA :: mta.receivedFromMTA :: rs.map (·.remoteMTA)) then none else
       match generate t.idna (utf8 == "1") env mta rs (← hdr.toNat?) with
       | .error e => pure ("err:" ++ genErrStr e)
       | .ok r => pure (reportStr r)
@@ -273,7 +281,7 @@ def handleQ : List String → Option String
     let name : Nat → S := fun i => (assoc names i).getD []
     let host ← unhexRunes? host
     let rcvd ← unhexRunes? rcvd
-    if !t.covers (names.map (·.2)) [host, rcvd] then none else
+    if !t.covers (utf8 == "1") (names.map (·.2)) [host, rcvd] then none else
     let cfg : Cfg := { pipeline := pipeline == "1", hostname := host, autogenDomain := ← unhexRunes? domain,
                        idna := t.idna, name := name }
     let m : MsgMeta := { id := ← unhexRunes? msgid, from_ := from_, originalFrom := ofrom,
